@@ -17,7 +17,7 @@ PID = "C17"
 _CFGS = None
 # ScratchVar with automatic / requested slot, abi.Uint64 through set()/get(), bare ScratchSlot through
 # ScratchStore/ScratchLoad
-_VARKINDS = ("auto", "reserved", "abi", "raw")
+_VARKINDS = ("auto", "reserved", "abi", "raw", "bytes")
 
 
 def compile_and_classify(prog, cfg):
@@ -157,6 +157,8 @@ def _worker(items, base):
             for varkind in _VARKINDS:
                 if varkind in ("abi", "raw") and "'Ia'" in str(body):
                     continue    # set_index takes a ScratchVar
+                if varkind == "bytes" and "'cLa'" in str(body):
+                    continue    # the variable as a condition needs an integer
                 prog = gen_init.make_program(body, placement, varkind)
                 for cfg in _CFGS:
                     check(prog, body, cfg, out, size, placement, varkind)
